@@ -15,6 +15,7 @@ import (
 
 type Spec struct {
 	Pkg      string
+	Extra    int // the last Extra schemas are declared in a second source file (wire: "<pkg>+<n>")
 	Schemas  []*Schema
 	Services []*Service
 	Topics   []*Topic
@@ -132,7 +133,11 @@ func (e *enc) typ(t *Type) {
 
 func (s *Spec) Encode() string {
 	e := &enc{}
-	e.add("chain", s.Pkg)
+	if s.Extra > 0 {
+		e.add("chain", s.Pkg+"+"+strconv.Itoa(s.Extra))
+	} else {
+		e.add("chain", s.Pkg)
+	}
 	e.n(len(s.Schemas))
 	for _, sc := range s.Schemas {
 		e.add(sc.Kind, sc.Name)
@@ -281,6 +286,10 @@ func DecodeSpec(op string) (*Spec, error) {
 		return nil, fmt.Errorf("not a chain op")
 	}
 	s := &Spec{Pkg: d.next()}
+	if pkg, extra, ok := strings.Cut(s.Pkg, "+"); ok {
+		s.Pkg = pkg
+		s.Extra, _ = strconv.Atoi(extra)
+	}
 	for i, n := 0, d.n(); i < n && d.err == nil; i++ {
 		sc := &Schema{Kind: d.next(), Name: d.next()}
 		switch sc.Kind {
@@ -334,6 +343,9 @@ func DecodeSpec(op string) (*Spec, error) {
 	}
 	if d.err == nil && d.pos != len(d.toks) {
 		d.err = fmt.Errorf("trailing tokens")
+	}
+	if s.Extra < 0 || s.Extra > len(s.Schemas) {
+		d.err = fmt.Errorf("bad file split")
 	}
 	return s, d.err
 }
@@ -447,12 +459,31 @@ func (r *rend) props(word string, ps []*Prop) {
 	}
 }
 
-// Render gives the files of the package: one j5s file (path -> content).
+// Render gives the source files of the package (path -> content): gen.j5s, and extra.j5s with
+// the last s.Extra schemas when s.Extra > 0.
 func (s *Spec) Render() map[string][]byte {
+	dir := strings.ReplaceAll(s.Pkg, ".", "/")
+	out := map[string][]byte{}
+	first := s.Schemas
+	if s.Extra > 0 && s.Extra <= len(s.Schemas) {
+		first = s.Schemas[:len(s.Schemas)-s.Extra]
+		x := &rend{}
+		x.line("package %s", s.Pkg)
+		x.line("")
+		x.schemas(s.Schemas[len(s.Schemas)-s.Extra:])
+		out[dir+"/extra.j5s"] = []byte(x.b.String())
+	}
 	r := &rend{}
 	r.line("package %s", s.Pkg)
 	r.line("")
-	for _, sc := range s.Schemas {
+	r.schemas(first)
+	r.rest(s)
+	out[dir+"/gen.j5s"] = []byte(r.b.String())
+	return out
+}
+
+func (r *rend) schemas(scs []*Schema) {
+	for _, sc := range scs {
 		switch sc.Kind {
 		case "O":
 			r.line("object %s {", sc.Name)
@@ -473,6 +504,9 @@ func (s *Spec) Render() map[string][]byte {
 		r.line("}")
 		r.line("")
 	}
+}
+
+func (r *rend) rest(s *Spec) {
 	for _, sv := range s.Services {
 		r.line("service %s {", sv.Name)
 		r.ind++
@@ -561,6 +595,4 @@ func (s *Spec) Render() map[string][]byte {
 		r.line("}")
 		r.line("")
 	}
-	dir := strings.ReplaceAll(s.Pkg, ".", "/")
-	return map[string][]byte{dir + "/gen.j5s": []byte(r.b.String())}
 }
